@@ -371,7 +371,11 @@ fn map_indexes(
     indexes: &[usize],
     tree_depth: usize,
 ) -> Result<BTreeMap<usize, usize>, MerkleTreeError> {
-    let num_leaves = 2usize.pow(tree_depth as u32);
+    // the depth of a deserialized proof is untrusted; a tree that deep cannot be indexed
+    let num_leaves = match 1usize.checked_shl(tree_depth as u32) {
+        Some(num_leaves) => num_leaves,
+        None => return Err(MerkleTreeError::InvalidProof),
+    };
     let mut map = BTreeMap::new();
     for (i, index) in indexes.iter().cloned().enumerate() {
         map.insert(index, i);
